@@ -402,6 +402,10 @@ func (m *manager) updateValidationStatus(ctx context.Context, chid datatransfer.
 
 	// dispatch channel events and generate a response message
 	chst, response, err := m.processValidationUpdate(ctx, chid, result)
+	if chst == nil {
+		// the channel could not be read or updated, so there is no transport state to update
+		return err
+	}
 
 	// dispatch transport updates
 	return m.handleTransportUpdate(ctx, chst, response, result, err)
